@@ -14,7 +14,7 @@ VARIANTS = [
     V("accuracy-no-none-column", M, "    y_score = np.c_[y_score, 1 - y_score.sum(axis=1, keepdims=True)]\n    y_pred = y_score.argmax(axis=1)\n    return metrics.accuracy_score(", "    y_pred = y_score.argmax(axis=1)\n    return metrics.accuracy_score(", "R09.3"),
     V("balanced-none-maps-to-zero", M, "        [y if y is not None else num_classes for y in y_true]\n    )\n    y_score = np.c_[y_score, 1 - y_score.sum(axis=1, keepdims=True)]\n    y_pred = y_score.argmax(axis=1)\n    return metrics.balanced_accuracy_score(",
       "        [y if y is not None else 0 for y in y_true]\n    )\n    y_score = np.c_[y_score, 1 - y_score.sum(axis=1, keepdims=True)]\n    y_pred = y_score.argmax(axis=1)\n    return metrics.balanced_accuracy_score(", "R09.3"),
-    V("map-mask-only-truth", M, "    y_true = y_true[~no_class]\n    y_score = y_score[~no_class]\n", "    y_true = y_true[~no_class]\n", "R09.3"),
+    V("map-mask-only-truth", M, "        y_true = y_true[~no_class]\n        y_score = y_score[~no_class]\n", "        y_true = y_true[~no_class]\n", "R09.3"),
     V("accuracy-delegates-to-balanced", M, "    return metrics.accuracy_score(  # type: ignore", "    return metrics.balanced_accuracy_score(  # type: ignore", "R09.3"),
     V("jaccard-micro", M, "        average=\"samples\",", "        average=\"micro\",", "R09.3"),
     V("true-class-prob-none-is-zero", M, "    if y_true is None:\n        return 1 - y_score.sum()\n\n    return y_score[y_true]\n\n\ndef balanced_accuracy", "    if y_true is None:\n        return 0.0\n\n    return y_score[y_true]\n\n\ndef balanced_accuracy", "R09.3"),
@@ -27,6 +27,7 @@ VARIANTS = [
       "    return [\n        data.Feature(\n            term=terms.average_precision,\n            value=metric(\n                true_classes,\n                predicted_classes_scores,\n            ),\n        )\n        for term, metric in RUN_METRICS", "R09.5"),
     V("top3-labels-missing-none-class", M, "        labels=list(range(num_classes + 1)),", "        labels=list(range(num_classes)),", "R09.3"),
     V("truth-row-dropped-for-unmatched-prediction", "src/soundevent/evaluation/tasks/sound_event_detection.py", "            true_classes.append(None)\n", "", "R09.6"),
+    V("mask-applied-whatever-the-rank(F18)", "src/soundevent/evaluation/metrics.py", "    if y_true.ndim == 1:\n        # Remove examples with no class. NOTE: only class indices can be\n        # missing; a two-dimensional indicator matrix must keep its shape\n        # (a boolean mask of the same shape would flatten it).\n        no_class = np.isnan(y_true)\n        y_true = y_true[~no_class]\n        y_score = y_score[~no_class]\n", "    no_class = np.isnan(y_true)\n    y_true = y_true[~no_class]\n    y_score = y_score[~no_class]\n", "R09.3"),
     # neutral
     V("N-reorder-rows", T + "clip_classification.py", "    (terms.balanced_accuracy, metrics.balanced_accuracy),\n    (terms.accuracy, metrics.accuracy),\n", "    (terms.accuracy, metrics.accuracy),\n    (terms.balanced_accuracy, metrics.balanced_accuracy),\n", None),
     V("N-none-test-inverted", M, "        [y if y is not None else num_classes for y in y_true]\n    )\n    y_score = np.c_[y_score, 1 - y_score.sum(axis=1, keepdims=True)]\n    return metrics.top_k", "        [num_classes if y is None else y for y in y_true]\n    )\n    y_score = np.c_[y_score, 1 - y_score.sum(axis=1, keepdims=True)]\n    return metrics.top_k", None),
